@@ -24,7 +24,7 @@ fn world(cx: &CaseCx, k: u64) -> World {
   World { server, pk, pkb }
 }
 /// offset of the point of `md` inside the bincode form of the public key: base(32) | n u64 | (tag u8, point 32)*
-fn tag_slot(pkb: &[u8], md: u8) -> Option<usize> {
+pub fn tag_slot(pkb: &[u8], md: u8) -> Option<usize> {
   let n = u64::from_le_bytes(pkb[32..40].try_into().ok()?) as usize;
   (0..n).map(|i| 40 + 33 * i).find(|&at| pkb[at] == md).map(|at| at + 1)
 }
@@ -228,6 +228,74 @@ fn run_tag_list_shapes(cx: &mut CaseCx, case: &Value) {
   }
 }
 
+
+/// Completeness after key synchronisation: whatever a server RETURNS as a verifiable evaluation verifies
+/// against the key that server publishes - for followers whose own tag list equals, contains, is contained in,
+/// overlaps or is disjoint from the leader's.
+fn run_after_key_sync(cx: &mut CaseCx, _case: &Value) {
+  use super::c11::{export_bytes, import_into};
+  cx.entropy(290);
+  let leader_tags: Vec<u8> = vec![1, 2, 3];
+  let leader = pp::Server::new(leader_tags.clone()).expect("server");
+  let lpk = leader.get_public_key();
+  let bytes = match export_bytes(&leader) {
+    Ok(b) => b,
+    Err(_) => return,
+  };
+  let followers: Vec<(&str, Vec<u8>)> = vec![("the same tags", vec![1, 2, 3]), ("a subset", vec![2]), ("a superset", vec![0, 1, 2, 3, 4]), ("a shifted window", vec![2, 3, 4]), ("disjoint tags", vec![7, 8]), ("no tags", vec![]), ("the same tags, unsorted", vec![3, 1, 2])];
+  for (fname, ftags) in followers {
+    let mut f = match guard(|| pp::Server::new(ftags.clone())) {
+      Ok(Ok(s)) => s,
+      _ => continue,
+    };
+    // the follower has answered requests of its own before the sync
+    let (warm, _) = pp::Client::blind(b"before sync");
+    for &t in &ftags {
+      let _ = guard(|| f.eval(&warm, t, true).is_ok());
+    }
+    if import_into(&mut f, &bytes).is_err() {
+      cx.viol("C13/key-sync-import-failed", format!("a follower created with {} cannot import the leader's key state", fname), json!({"follower_tags": ftags}));
+      continue;
+    }
+    let fpk = f.get_public_key();
+    let mut all: Vec<u8> = leader_tags.iter().chain(ftags.iter()).copied().collect();
+    all.extend([0u8, 5, 255]);
+    all.sort();
+    all.dedup();
+    for &md in &all {
+      let (blinded, _) = pp::Client::blind(b"after sync");
+      cx.eval();
+      cx.nontrivial(fnv_str(&format!("{}|{}", fname, md)));
+      let d = || json!({"leader_tags": leader_tags, "follower_created_with": ftags, "tag": md});
+      match guard(|| f.eval(&blinded, md, true)) {
+        Ok(Ok(ev)) => {
+          if guard(|| pp::Client::verify(&fpk, &blinded, &ev, md)) != Ok(true) {
+            cx.viol("C13/complete/after-key-sync", format!("a follower (created with {}: {:?}) that imported the leader's key state returns a verifiable evaluation for tag {} that does NOT verify against the key the follower itself publishes", fname, ftags, md), d());
+            return;
+          }
+          if leader_tags.contains(&md) && guard(|| pp::Client::verify(&lpk, &blinded, &ev, md)) != Ok(true) {
+            cx.viol("C13/complete/after-key-sync", format!("the follower's evaluation for the leader's tag {} does not verify against the leader's public key", md), d());
+            return;
+          }
+          if !leader_tags.contains(&md) {
+            cx.count("answers_for_tags_the_leader_lacks", 1);
+          }
+          cx.count("synced_evaluations_verified", 1);
+        }
+        Ok(Err(_)) => {
+          if leader_tags.contains(&md) {
+            cx.viol("C13/complete/after-key-sync", format!("after importing the leader's state the follower (created with {}) refuses the leader's tag {}", fname, md), d());
+            return;
+          }
+          cx.count("synced_refusals", 1);
+        }
+        Err(p) => cx.viol("C13/eval-panicked", p, d()),
+      }
+    }
+  }
+  cx.outcome("after key sync");
+}
+
 fn run_soundness(cx: &mut CaseCx, case: &Value) {
   let w = world(cx, 0);
   let w2 = world(cx, 1);
@@ -274,13 +342,24 @@ fn run_soundness(cx: &mut CaseCx, case: &Value) {
   let s_bytes: [u8; 32] = h.proof[32..64].try_into().unwrap();
   let sc_plus1 = |b: &[u8; 32]| Option::<Scalar>::from(Scalar::from_canonical_bytes(*b)).map(|s| (s + Scalar::ONE).to_bytes());
   let sc_neg = |b: &[u8; 32]| Option::<Scalar>::from(Scalar::from_canonical_bytes(*b)).map(|s| (Scalar::ZERO - s).to_bytes());
+  // the same residue in a SECOND byte encoding: value + l (and + 2l) as 256-bit little-endian integers
+  let sc_plus_order = |b: &[u8; 32], times: u32| -> Option<[u8; 32]> {
+    let l = num_bigint::BigUint::from_bytes_le(&(Scalar::ZERO - Scalar::ONE).to_bytes()) + 1u32;
+    let v = num_bigint::BigUint::from_bytes_le(b) + l * times;
+    let mut bytes = v.to_bytes_le();
+    if bytes.len() > 32 {
+      return None;
+    }
+    bytes.resize(32, 0);
+    bytes.try_into().ok()
+  };
   let comps: Vec<(&'static str, Vec<(String, [u8; 32])>)> = vec![
     ("public key base point", repl(&base, vec![("other server's", Some(w2.pkb[..32].try_into().unwrap())), ("+G", add_g(&base)), ("identity", Some(ident)), ("tag point", Some(tagp))])),
     ("public key tag point", repl(&tagp, vec![("other server's", Some(w2.pkb[slot2..slot2 + 32].try_into().unwrap())), ("other tag's", Some(w.pkb[other_slot..other_slot + 32].try_into().unwrap())), ("+G", add_g(&tagp)), ("identity", Some(ident)), ("base point", Some(base))])),
     ("input point", repl(&h.blinded, vec![("another honest request", Some(h_other_input.blinded)), ("+G", add_g(&h.blinded)), ("identity", Some(ident)), ("output point", Some(h.output))])),
     ("output point", repl(&h.output, vec![("of another input", Some(h_other_input.output)), ("of another tag", Some(h_other_tag.output)), ("of another server", Some(h_other_server.output)), ("+G", add_g(&h.output)), ("identity", Some(ident)), ("input point", Some(h.blinded))])),
-    ("challenge c", repl(&c_bytes, vec![("+1", sc_plus1(&c_bytes)), ("negated", sc_neg(&c_bytes)), ("zero", Some([0u8; 32])), ("of another proof", Some(h_other_input.proof[..32].try_into().unwrap())), ("response s", Some(s_bytes))])),
-    ("response s", repl(&s_bytes, vec![("+1", sc_plus1(&s_bytes)), ("negated", sc_neg(&s_bytes)), ("zero", Some([0u8; 32])), ("of another proof", Some(h_other_input.proof[32..64].try_into().unwrap())), ("challenge c", Some(c_bytes))])),
+    ("challenge c", repl(&c_bytes, vec![("+ l (second encoding of the same residue)", sc_plus_order(&c_bytes, 1)), ("+ 2l", sc_plus_order(&c_bytes, 2)), ("+1", sc_plus1(&c_bytes)), ("negated", sc_neg(&c_bytes)), ("zero", Some([0u8; 32])), ("of another proof", Some(h_other_input.proof[..32].try_into().unwrap())), ("response s", Some(s_bytes))])),
+    ("response s", repl(&s_bytes, vec![("+ l (second encoding of the same residue)", sc_plus_order(&s_bytes, 1)), ("+ 2l", sc_plus_order(&s_bytes, 2)), ("+1", sc_plus1(&s_bytes)), ("negated", sc_neg(&s_bytes)), ("zero", Some([0u8; 32])), ("of another proof", Some(h_other_input.proof[32..64].try_into().unwrap())), ("challenge c", Some(c_bytes))])),
   ];
   for (comp, reps) in comps {
     for (how, val) in reps {
@@ -633,6 +712,13 @@ pub fn spec() -> PropSpec {
         gen: |_| (0..12u64).map(|i| json!({"list": i})).collect(),
         run: run_tag_list_shapes,
         min_counts: &[("honest_verified", 40), ("cross_tag_rejected", 100)],
+      },
+      Check {
+        name: "after-key-sync",
+        rule: "a leader with tags {1,2,3} exports its key state; followers created with the same tags, a subset, a superset, a shifted window, disjoint tags, no tags, the same tags unsorted (each having answered requests before) import it: for every tag of either list and 0, 5, 255: a verifiable evaluation the follower RETURNS verifies against the key the follower publishes (and against the leader's for the leader's tags); the leader's tags are never refused",
+        gen: |_| vec![json!({})],
+        run: run_after_key_sync,
+        min_counts: &[("synced_evaluations_verified", 20), ("synced_refusals", 20)],
       },
       Check { name: "nonces", rule: "commitment s*G + c*PK recomputed for every proof issued (6 inputs x 4 tags x the identical request repeated 4 times; then the same requests answered in lockstep by the original server, a clone, a clone of the clone and a server restored from the exported state): pairwise distinct (about 860 proofs on one thread, more than any plausible per-thread pool)", gen: |_| vec![json!({})], run: run_nonces, min_counts: &[("proofs_issued", 90)] },
     ],
